@@ -84,4 +84,35 @@ theorem kernel_hash_spec (prof : Profile) (x y : Dec) (hx : Dom x) (hy : Dom y)
   rw [Kernels.decimal_hash_eq prof x ⟨hx.1, hx.2.1⟩, Kernels.decimal_hash_eq prof y ⟨hy.1, hy.2.1⟩]
   exact hash_congr prof x y hx hy h
 
+/-! ### algebraic laws -/
+
+/-- `Decimal::from(i).as_integer_ratio() = (i, 1)` for every integer `i` and every profile (nothing is computed) -/
+theorem ratio_of_int (prof : Profile) (i : Int) :
+    asIntegerRatio prof (fromInt i) = .ok (i, 1) ∧ numerator prof (fromInt i) = .ok i ∧ denominator prof (fromInt i) = .ok 1 := by
+  unfold asIntegerRatio numerator denominator fromInt
+  simp
+
+/-- the same for every Decimal without fractional digits and for every zero -/
+theorem ratio_of_integral (prof : Profile) (d : Dec) (h : d.nfrac = 0 ∨ d.coeff = 0) : asIntegerRatio prof d = .ok (d.coeff, 1) := by
+  unfold asIntegerRatio
+  simp [h]
+
+/-- model level: what `as_integer_ratio` returns is the reduced fraction of the value — `numerator · 10^p = coeff · denominator`,
+    positive denominator, coprime — and `numerator` / `denominator` are its components -/
+theorem as_integer_ratio_reduced (prof : Profile) (d : Dec) (hd : Dom d) :
+    ∃ n dn : Int, asIntegerRatio prof d = .ok (n, dn) ∧ numerator prof d = .ok n ∧ denominator prof d = .ok dn ∧
+      n * (10 : Int) ^ d.nfrac = d.coeff * dn ∧ 0 < dn ∧ Int.gcd n dn = 1 := by
+  obtain ⟨h1, h2, h3⟩ := as_integer_ratio_spec prof d hd
+  obtain ⟨r1, r2, r3⟩ := ratio_is_reduced d.coeff d.nfrac
+  exact ⟨_, _, h1, h2, h3, r3, r1, r2⟩
+
+/-- two Decimals of equal value have the same `as_integer_ratio` (any two representations) -/
+theorem as_integer_ratio_of_equal_values (prof : Profile) (x y : Dec) (hx : Dom x) (hy : Dom y)
+    (h : Spec.cmp x.coeff x.nfrac y.coeff y.nfrac = .eq) : asIntegerRatio prof x = asIntegerRatio prof y := by
+  rw [(as_integer_ratio_spec prof x hx).1, (as_integer_ratio_spec prof y hy).1, ratio_of_equal_values _ _ _ _ h]
+
+example : asIntegerRatio Profile.dev (fromInt (-7)) = .ok (-7, 1) ∧ asIntegerRatio Profile.release (fromInt I128_MIN) = .ok (I128_MIN, 1) ∧
+    asIntegerRatio Profile.dev ⟨0, 5⟩ = .ok (0, 1) ∧ asIntegerRatio Profile.dev ⟨-50, 2⟩ = .ok (-1, 2) ∧
+    (-1 : Int) * 10 ^ 2 = -50 * 2 ∧ asIntegerRatio Profile.dev ⟨340, 2⟩ = asIntegerRatio Profile.dev ⟨34, 1⟩ := by decide
+
 end Fpdec.Props.C09
